@@ -1,7 +1,10 @@
 (** Correspondence driver for C03, evaluated by [vm_compute] on the case files written by
     harness/hc_wire/src/bin/h_wire_codec.rs.  [CE]: a packet model, what the implementation's
     encoder did with it, and what its decoder made of the result.  [CD]: a byte string, what the
-    decoder made of it, and the re-encoding of the decoded model. *)
+    decoder made of it, and the re-encoding of the decoded model.
+    Verdict bits: 1 model/implementation mismatch, 2 property violation (any oracle, incl. the
+    reused-buffer outputs), 16 / 64 known open classes.  (Bit 32, the dirty-buffer class, was
+    retired when that finding was repaired: a reused-buffer difference is a violation.) *)
 From Sci Require Export Wire.Codec Wire.Spec_C03.
 Local Open Scope N_scope.
 
@@ -9,7 +12,7 @@ Inductive dres := DPanic | DErr | DOk (p : packet) (rest : N).
 
 Inductive c3case :=
 | CE (kind : N) (m : packet) (noncanon valid : bool) (size : N) (enc : list (N * N))
-     (dec : dres) (dirty_same : bool) (csum_unaligned : N)
+     (dec : dres) (dirty : list (N * list (N * N))) (csum_unaligned : N)
 | CD (kind : N) (b : list (N * N)) (dec : dres) (reenc_ok : bool) (reenc : list (N * N)).
 
 Definition dres_of (r : res (packet * bytes)) : dres :=
@@ -29,7 +32,7 @@ Definition csum_in_bytes (kind hs : N) (b : bytes) : N :=
 
 Definition verdict (c : c3case) : N :=
   match c with
-  | CE kind m noncanon valid size enc dec dirty_same csum_un =>
+  | CE kind m noncanon valid size enc dec dirty csum_un =>
     let b := rle_expand enc in
     let hs := header_size (p_hdr m) in
     let v_m := packet_wire_valid m in
@@ -46,13 +49,21 @@ Definition verdict (c : c3case) : N :=
     let o_repr := representable m in
     let o_un := (csum_un =? 65536) || (csum_un =? csum_in_bytes kind hs b) in
     let o_lf := length_fields_match kind b hs in      (* written length fields = true sizes, as numbers *)
-    let bad := valid && negb (o_len && o_lf && o_spec && o_csum && o_rt && o_repr && o_un) in
     (* noncanon: the harness saw an accepted model whose catch-all enum variant spells a known
-       number come back from the decoder as the named variant (Rust ==) *)
+       number come back from the decoder as the named variant (Rust ==); only the two oracles that
+       compare MODELS are excused for that class, every byte-level oracle still applies *)
     let known_tag := noncanon in
-    let dirty := valid && negb dirty_same in
-    (if mismatch then 1 else 0) + (if bad && negb known_tag then 2 else 0)
-    + (if known_tag then 16 else 0) + (if dirty then 32 else 0)
+    let bad := valid && negb (o_len && o_lf && o_csum && o_repr && o_un && (known_tag || (o_spec && o_rt))) in
+    (* [dirty]: outputs of try_encode into a reused buffer (pre-filled with 0xFF / 0xA5 / the previous
+       packet) that the harness kept: all of them for the kind x path matrix, otherwise those that
+       differ from the fresh-buffer output.  Each must be byte-identical to [enc] and carry a
+       verifying checksum -- for every payload kind (the oracles below take [kind]). *)
+    let dirty_bad :=
+      valid && existsb (fun d => let db := rle_expand (snd d) in
+                                 negb (list_eqb N.eqb db b) || negb (spec_checksum_ok kind db)
+                                 || negb (length_fields_match kind db hs)) dirty in
+    (if mismatch then 1 else 0) + (if bad || dirty_bad then 2 else 0)
+    + (if known_tag then 16 else 0)
   | CD kind rb dec reenc_ok reenc =>
     let b := rle_expand rb in
     let mismatch := negb (dres_eqb (dres_of (decode_packet kind b)) dec) in
